@@ -106,6 +106,12 @@ INCLUDES = {
     "ok_combine_twice": ("run_command(name='d1', run='true')\ncombine(name='results', deps=[':d1'])\n"
                          "combine(name='report', deps=[':results', ':d1x'])\nrun_command(name='d1x', run='true')\n"
                          "group(name='t', deps=[':results', ':report'])\n", {}),
+    # well-formed definitions at SCALE: a pipeline generated by a loop, a long chained sweep - requested from the far end
+    "ok_long_chain": ("for i in range(1200):\n    run_command(name='c%d' % i, run='true', deps=[':c%d' % (i - 1)] if i else [])\n"
+                      "group(name='t', deps=[':c1199'])\n", {}),
+    "ok_long_group": ("run_experiment_group(name='sweep', run='true', chain_experiments=True,\n"
+                      "    experiments=[ExperimentInstance(name='s%d' % i, args=[i]) for i in range(1100)])\n"
+                      "group(name='t', deps=[':s1099'])\n", {}),
     "definestask_exp": ("include('vals.cond')\nrun_command(name='t', run='true')\n", {"vals.cond": "run_experiment(name='z', run='true')\n"}),
     "definestask_group": ("include('vals.cond')\nrun_command(name='t', run='true')\n", {"vals.cond": "group(name='z')\n"}),
     "definestask_combine": ("include('vals.cond')\nrun_command(name='t', run='true')\n", {"vals.cond": "combine(name='z')\n"}),
@@ -309,7 +315,7 @@ def main(tier):
     reps = 2 if tier == "quick" else 6
     for _ in range(reps):
         items += [{"kind": "include", "cls": c} for c in INCLUDES] + [{"kind": "pyfail", "cls": c} for c in PYFAIL]
-        items += [{"kind": "include", "cls": c, "sibling": sb} for c in INCLUDES if not c.startswith("ok_t") and not c.startswith("ok_c") for sb in (1, 2)
+        items += [{"kind": "include", "cls": c, "sibling": sb} for c in INCLUDES if not c.startswith("ok_") for sb in (1, 2)
                   if c not in ("outside", "outsideviasymlink", "okprojectrelative")]
     chunk = max(40, len(items) // (C.NPROC * 3))
     rows = []
